@@ -4,6 +4,10 @@ import json, os
 HERE = os.path.dirname(os.path.dirname(os.path.abspath(__file__)))
 
 CLAIMED = {
+ 'C18': ('AST/CFG pairing and ordering rules: temp-file-then-move, fstat-on-open-descriptor, handler breadth, purge-dominates-stamp, who-may-write, mode/cache pairing',
+         'Decides the structural necessary conditions for every schedule and crash point: entries and stamp are only ever published by moving a closed temp file; freshness is decided on the descriptor that is unpickled with full-resolution mtimes and older-than-source rejected; any unpickling exception discards the entry; purge dominates publishing a new version stamp; cache hit/miss controls only parse+store and the cache is disabled when the parse mode differs.',
+         'Not decided: actual interleavings, crash points, mtime granularity of the file system, cross-device move semantics (a torn copy is left to the unpickling failure rule). Trusted: rename atomicity of shutil.move on one file system.',
+         '§4 C18'),
  'C19': ('regex automaton language equivalence (name symbolic) + AST path rules for the matching loop and failure',
          'The ldd pattern is compared for language equivalence with the rule stated in the property over all words (exhaustive, library name as opaque symbol); structural rules decide header-line skip, first-match-wins, one file per request, base-name reporting, SystemExit on any unresolved name, no swallowing handler, libtool dlname pattern.',
          'Not decided: loader output conventions (ldd/otool formats). Trusted: CPython re._parser, the homomorphism argument of DESIGN.md §4 C19.',
